@@ -18,7 +18,7 @@ from ..calltrace import judge_calls
 PID = "C14"
 HH_INV = ["HHExists", "HHConstructive", "HHUniqueUpToTies", "HHMonotone", "HHScaleFree", "HHRationalShares"]
 HH_MC = {"quick": [dict(MaxTypes=3, MaxW=5, MaxN=7), dict(MaxTypes=4, MaxW=3, MaxN=4)],
-         "thorough": [dict(MaxTypes=3, MaxW=7, MaxN=9), dict(MaxTypes=4, MaxW=5, MaxN=8)]}
+         "thorough": [dict(MaxTypes=3, MaxW=7, MaxN=9), dict(MaxTypes=4, MaxW=4, MaxN=8)]}
 NAME_KINDS = ["PL", "shortPL", "BT", "BT_MCMC", "Cumulative"]
 SLATE_KINDS = ["sPL", "sBT", "sBT_MCMC"]
 CROSS_KINDS = ["AC", "Cambridge"]
@@ -133,6 +133,8 @@ def known_defect_class(inp):
         return "point-zero"
     if k in ("Spatial", "Clustered") and inp.get("variant") == "default":
         return "spatial-defaults"
+    if k == "Clustered" and inp.get("variant") == "gp":
+        return "clustered-generate-profile"
     return None
 
 
@@ -154,6 +156,8 @@ def corpus(tier, seed):
                 variant = "zero"
             if kind in ("Spatial", "Clustered") and i % 14 == 13:
                 variant = "default"
+            if kind == "Clustered" and i % 14 == 12:
+                variant = "gp"                      # ClusteredSpatial.generate_profile(N) instead of generate_profile_with_dict
             inputs.append(_free_input(rng, kind, ns[i % len(ns)], variant))
     if os.environ.get("VERIF_C14_SKIP_KNOWN"):
         inputs = [i for i in inputs if known_defect_class(i) is None]
@@ -161,6 +165,10 @@ def corpus(tier, seed):
 
 
 # ----------------------------------------------------------------------------- one call of the real code
+class NoProfileReturned(Exception):
+    pass
+
+
 def _score_bag(profile, inv):
     d = {}
     for b in profile.ballots:
@@ -248,10 +256,14 @@ def call_work(inp):
                     g = bg.ClusteredSpatial(candidates=cl) if inp.get("variant") == "default" else \
                         bg.ClusteredSpatial(candidates=cl, voter_dist=np.random.normal, voter_dist_kwargs={"loc": 0, "scale": 0.3, "size": 2},
                                             candidate_dist=np.random.uniform, candidate_dist_kwargs=dict(uni))
-                    pp = g.generate_profile_with_dict({nm[c]: k for c, k in inp["counts"].items()})[0]
+                    if inp.get("variant") == "gp":
+                        pp = g.generate_profile(N)
+                        pp = pp[0] if isinstance(pp, tuple) else pp
+                    else:
+                        pp = g.generate_profile_with_dict({nm[c]: k for c, k in inp["counts"].items()})[0]
                 byb = {}
         if not isinstance(pp, PreferenceProfile):
-            raise TypeError("generate_profile returned %s" % type(pp).__name__)
+            raise NoProfileReturned("generate_profile returned %s" % type(pp).__name__)
         cum = kind == "Cumulative"
         t["bag"], t["dropped"] = _project(pp, inv, cum)
         if inp["byb"]:
